@@ -175,6 +175,33 @@ func runC15(t *testing.T, c *choice.Stream, r *Result, opt RunOpt) {
 		_, err := w.Flush()
 		line("WriteColumn x2 %s %d bytes err=%v; equals reference: %v", shaHex(sink.Got), len(sink.Got), err, string(sink.Got) == want)
 	}
+	{
+		// two columns that are neighbouring parts of one allocation (a batch cut in
+		// two), with bytes of the caller's between them, flushed once
+		col := fill()
+		rv := reflect.ValueOf(col)
+		if rv.Kind() == reflect.Pointer && rv.Elem().Kind() == reflect.Slice && rv.Elem().Len() >= 2 && len(ref.B)%rv.Elem().Len() == 0 {
+			rows := rv.Elem().Len()
+			n := 1 + c.Draw("adjacent.at", rows-1)
+			pa, pb := reflect.New(rv.Elem().Type()), reflect.New(rv.Elem().Type())
+			pa.Elem().Set(rv.Elem().Slice(0, n))
+			pb.Elem().Set(rv.Elem().Slice(n, rows))
+			ca, okA := pa.Interface().(proto.Column)
+			cb, okB := pb.Interface().(proto.Column)
+			if okA && okB {
+				size := len(ref.B) / rows
+				mark := []byte{0xAA, 0xBB, 0xCC}
+				sink := &simio.FaultySink{FailAfter: -1}
+				w := proto.NewWriter(sink, new(proto.Buffer))
+				ca.WriteColumn(w)
+				w.ChainBuffer(func(b *proto.Buffer) { b.Buf = append(b.Buf, mark...) })
+				cb.WriteColumn(w)
+				_, err := w.Flush()
+				want := string(ref.B[:n*size]) + string(mark) + string(ref.B[n*size:])
+				line("WriteColumn adjacent-halves %s %d bytes err=%v; equals reference: %v", shaHex(sink.Got), len(sink.Got), err, string(sink.Got) == want)
+			}
+		}
+	}
 	// ---- decode: fresh and used-then-reset targets ----
 	// the source hands the bytes over at once or in pieces (a column is seldom
 	// alone in a read buffer, and a transport delivers what it has)
